@@ -32,6 +32,16 @@ inductive StepN (Δ : Moves σ α γ) : Nat → Config σ α γ → Config σ α
   | zero (c : Config σ α γ) : StepN Δ 0 c c
   | succ {n : Nat} {c c' c'' : Config σ α γ} (h : StepN Δ n c c') (s : Step Δ c' c'') : StepN Δ (n + 1) c c''
 
+/-- A λ-move (ε-move): a move that reads nothing. -/
+inductive EpsStep (Δ : Moves σ α γ) : Config σ α γ → Config σ α γ → Prop
+  | mk {q p : σ} {w : List α} {β push : List γ} {X : γ} (h : Δ q none X p push) :
+      EpsStep Δ ⟨q, w, β ++ [X]⟩ ⟨p, w, β ++ push.reverse⟩
+
+/-- "The ε-moves of the table cannot run forever" (the condition in C02's quantifier): there is
+no infinite sequence of λ-moves, from any configuration whatever — the converse of the λ-move
+relation is well founded (every configuration is accessible). -/
+def EpsTerminates (Δ : Moves σ α γ) : Prop := ∀ c, Acc (fun c' c => EpsStep Δ c c') c
+
 /-- The three acceptance modes. -/
 inductive AccMode
   | finalState | emptyStack | both
@@ -67,11 +77,31 @@ def DPDA.moves (M : DPDA σ α γ) : Moves σ α γ :=
 def DPDA.TwoMoves (M : DPDA σ α γ) : Prop :=
   ∃ q a X, (M.entry? q (some a) X).isSome = true ∧ (M.entry? q none X).isSome = true
 
+/-- The moves of an NPDA table stated by membership only — no lookup function of the model is
+involved: `transitions` has an item `(q, row)`, `row` an item `(a, sp)`, `sp` an item `(X, ts)`
+and `(p, push) ∈ ts`.  Equal to `NPDA.moves` when dict keys are unique
+(`C02_moves_by_membership`). -/
+def NPDA.movesMem (M : NPDA σ α γ) : Moves σ α γ :=
+  fun q a X p push => ∃ row sp ts, (q, row) ∈ M.trans ∧ (a, sp) ∈ row ∧ (X, ts) ∈ sp ∧ (p, push) ∈ ts
+
+/-- The moves of a DPDA table stated by membership only. -/
+def DPDA.movesMem (M : DPDA σ α γ) : Moves σ α γ :=
+  fun q a X p push => ∃ row sp, (q, row) ∈ M.trans ∧ (a, sp) ∈ row ∧ (X, (p, push)) ∈ sp
+
+/-- `DPDA.TwoMoves` stated by membership only. -/
+def DPDA.TwoMovesMem (M : DPDA σ α γ) : Prop :=
+  ∃ q row a sp sp' X, (q, row) ∈ M.trans ∧ (some a, sp) ∈ row ∧ (none, sp') ∈ row ∧
+    X ∈ akeys sp ∧ X ∈ akeys sp'
+
 /-- Python dicts have unique keys: the association lists standing for `transitions` and
 for each `transitions[q]` have no repeated key (a representation invariant, not a
 restriction on definitions). -/
 def Table.KeysUnique {τ : Type} (M : Table σ α γ τ) : Prop :=
   (akeys M.trans).Nodup ∧ ∀ kv ∈ M.trans, (akeys kv.2).Nodup
+
+/-- Unique keys at all three levels of `transitions[q][a][X]` (the innermost dicts included). -/
+def Table.KeysUniqueAll {τ : Type} (M : Table σ α γ τ) : Prop :=
+  M.KeysUnique ∧ ∀ kv ∈ M.trans, ∀ e ∈ kv.2, (akeys e.2).Nodup
 
 /-- Everything `PDA.validate` asks of a definition apart from determinism: the input
 symbols labelling transitions are declared (or are the empty string), the stack symbols
